@@ -1155,6 +1155,25 @@ def _inline_temps(fn: ast.FunctionDef) -> bool:
         if isinstance(n, (ast.FunctionDef, ast.Lambda, ast.GeneratorExp)) and n is not fn:
             excluded |= {m.id for m in ast.walk(n) if isinstance(m, ast.Name)}
 
+    # objects that are modified in place (element / attribute stores, mutating calls) keep their name: replacing
+    # the name by its defining expression would re-evaluate that expression and store into a temporary
+    for n in ast.walk(fn):
+        tg = []
+        if isinstance(n, ast.Assign):
+            tg = n.targets
+        elif isinstance(n, (ast.AugAssign, ast.AnnAssign)):
+            tg = [n.target]
+        elif isinstance(n, ast.Delete):
+            tg = n.targets
+        elif isinstance(n, ast.For):
+            tg = [n.target]
+        for t in tg:
+            for e in (t.elts if isinstance(t, (ast.Tuple, ast.List)) else [t]):
+                if isinstance(e, (ast.Subscript, ast.Attribute)) and _base_name(e):
+                    excluded.add(_base_name(e))
+        if isinstance(n, ast.Call):
+            _call_kills(n, excluded)
+
     changed = False
 
     def attempt(block: List[ast.stmt], cont: List[List[ast.stmt]]):
@@ -1658,27 +1677,71 @@ def _name_lengths(fn: ast.FunctionDef):
         nm = f"N_{x}"
         if nm in existing:
             continue
-        place = None
-        if x in params and rebound.get(x, 0) == 0:
-            place = (fn.body, 0)
-            # after the docstring
-            if fn.body and isinstance(fn.body[0], ast.Expr) and isinstance(fn.body[0].value, ast.Constant) \
-                    and isinstance(fn.body[0].value.value, str):
-                place = (fn.body, 1)
-        elif x not in params and rebound.get(x, 0) == 1:
-            for k, s in enumerate(fn.body):
-                if _plain_def(s, x):
-                    place = (fn.body, k + 1)
-                    break
-        if place is None:
-            continue
-        # every len(x) must come after the definition: true for parameters; for locals require that no len(x)
-        # occurs in statements before the definition
-        blk, k = place
-        if any(isinstance(n, ast.Call) and isinstance(n.func, ast.Name) and n.func.id == 'len' and n.args
-               and isinstance(n.args[0], ast.Name) and n.args[0].id == x for s in blk[:k] for n in ast.walk(s)):
+        if not ((x in params and rebound.get(x, 0) == 0) or (x not in params and rebound.get(x, 0) == 1)):
             continue
 
+        def is_len_x(n):
+            return isinstance(n, ast.Call) and isinstance(n.func, ast.Name) and n.func.id == 'len' and len(n.args) == 1 \
+                and isinstance(n.args[0], ast.Name) and n.args[0].id == x and not n.keywords
+
+        def count(node) -> int:
+            return sum(1 for n in ast.walk(node) if is_len_x(n))
+
+        def unconditional(st) -> bool:
+            """len(x) is evaluated whenever the statement is executed"""
+            def cond_free(e) -> bool:
+                # a len(x) occurrence outside conditionally evaluated sub-expressions
+                if is_len_x(e):
+                    return True
+                if isinstance(e, ast.BoolOp):
+                    return cond_free(e.values[0])
+                if isinstance(e, ast.IfExp):
+                    return cond_free(e.test)
+                if isinstance(e, (ast.Lambda, ast.ListComp, ast.SetComp, ast.DictComp, ast.GeneratorExp)):
+                    if isinstance(e, ast.Lambda):
+                        return False
+                    return cond_free(e.generators[0].iter)
+                return any(cond_free(c) for c in ast.iter_child_nodes(e) if isinstance(c, ast.expr) or
+                           isinstance(c, (ast.keyword, ast.Slice, ast.comprehension)))
+            if isinstance(st, (ast.Assign, ast.AugAssign, ast.AnnAssign, ast.Expr, ast.Return, ast.Assert)):
+                return any(cond_free(c) for c in ast.iter_child_nodes(st) if isinstance(c, ast.expr))
+            if isinstance(st, (ast.If, ast.While)):
+                return cond_free(st.test)
+            if isinstance(st, ast.For):
+                return cond_free(st.iter)
+            return False
+
+        # the innermost block that contains every use
+        blk = fn.body
+        while True:
+            holders = [s_ for s_ in blk if count(s_)]
+            if len(holders) == 1 and not unconditional(holders[0]) and not isinstance(holders[0], (ast.FunctionDef, ast.ClassDef)):
+                subs = [b_ for b_ in _blocks_of(holders[0]) if any(count(s_) for s_ in b_)]
+                hdr = count(holders[0]) - sum(count(s_) for b_ in subs for s_ in b_)
+                if len(subs) == 1 and hdr == 0 and not isinstance(holders[0], (ast.While, ast.For)):
+                    blk = subs[0]
+                    continue
+            break
+        first = next((i for i, s_ in enumerate(blk) if count(s_)), None)
+        if first is None or not unconditional(blk[first]):
+            continue            # the first evaluation is conditional: naming it would add an evaluation
+        k = first
+        # x must be defined before that point: a parameter, or its single definition precedes in this or an outer block
+        if x not in params:
+            defined_before = False
+            for s_ in ast.walk(ast.Module(body=blk[:k], type_ignores=[])):
+                if isinstance(s_, ast.Name) and s_.id == x and isinstance(s_.ctx, ast.Store):
+                    defined_before = True
+            if not defined_before and blk is fn.body:
+                continue
+            if not defined_before:
+                # defined in an outer block before the statement that holds blk: accept only if the definition is a
+                # top-level statement of the function that precedes the holder
+                pos_def = next((i for i, s_ in enumerate(fn.body) if _plain_def(s_, x)), None)
+                pos_use = next((i for i, s_ in enumerate(fn.body) if count(s_)), None)
+                if pos_def is None or pos_use is None or pos_def >= pos_use:
+                    continue
+        # inside a loop body the name would be re-evaluated per iteration: fine (same value), but keep it simple
         class R(ast.NodeTransformer):
             def visit_Call(self, node):
                 self.generic_visit(node)
